@@ -28,9 +28,10 @@ def window_sessions(rnd, n, thorough):
             code, es = rnd.choice([(0xC2, 1), (0xC3, 2), (0xC4, 4), (0xC5, 8), (0xC2, 1)])
             big.append({"name": rnd.choice(["W", "Wnd_Tag_With_A_Longer_Name_", "w"]) + "%d" % j, "code": code, "dims": [max(1, sz // es)]})
         # structure-typed tags larger than the connection (replies carry the 4-byte structure type header)
-        su = rnd.choice(["Inner", "Flat", "STRING", "Outer"])
-        sbig = {"name": "WS", "udt": su, "dims": [max(2, center // {"Inner": 8, "Flat": 40, "STRING": 88, "Outer": 150}[su] + rnd.randint(0, 3))]}
-        sc = logix_rw.session(rnd, i, prefix="win", n_calls=0, big=big + [sbig], policy=pol, n_tags=2)
+        su = rnd.choice(["Inner", "Flat", "STRING", "Outer"] if S0 == 500 else ["Flat", "STRING", "Outer", "Outer"])
+        sbig = {"name": "WS", "udt": su, "dims": [max(2, S0 // {"Inner": 8, "Flat": 40, "STRING": 88, "Outer": 150}[su] + rnd.randint(1, 4))]}
+        wb = {"name": "WB", "code": 0xD3, "dims": [S0 // 4 + rnd.randint(3, 12)]}            # BOOL array whose words do not fit one reply
+        sc = logix_rw.session(rnd, i, prefix="win", n_calls=0, big=big + [sbig, wb], policy=pol, n_tags=2)
         calls = [{"api": "open"}]
         for b in big:
             n_el = b["dims"][0]
@@ -44,6 +45,11 @@ def window_sessions(rnd, n, thorough):
                 other = R([(ob["name"], [0])])
                 calls += [S.read_call([rd, other]), S.write_call([wr, dict(other, value=1)]), S.read_call([other, rd])]
         ws = R([("WS", [])], count=sbig["dims"][0])
+        nbits = 32 * wb["dims"][0]
+        calls += [S.read_call([R([("WB", [nbits - 64])], count=64), R([("WB", [nbits - 1])])]), S.read_call([R([("WB", [0])], count=64), R([("WB", [nbits - 40])], count=8)])]
+        wst = next(x for x in sc["project"]["symbols"] if x["name"] == "WS")["type"]
+        wsv = logix_rw.value_for(sc["project"], wst, rnd, sbig["dims"][0])
+        calls += [S.write_call([dict(ws, value=wsv)]), S.read_call([ws])]
         calls += [S.read_call([ws]), S.read_call([R([("WS", [1])], count=sbig["dims"][0] - 1), R([(big[0]["name"], [0])])])]
         # several mid-sized reads in one call: fills multi-service packets to the brim
         mids = [R([(b["name"], [])], count=max(1, min(b["dims"][0], rnd.choice([S0 // 40, S0 // 8, S0 // 3])))) for b in big for _ in range(3)]
@@ -63,6 +69,27 @@ def window_sessions(rnd, n, thorough):
         sc["calls"] = calls
         sc["family"] = "logix-window-%d" % S0
         sc["target"]["caps"] = [rnd.choice([1, 2, 3, 7, 99, 100, 333, S0 - 8, S0 - 9, S0]) for _ in range(rnd.choice([0, 4, 30]))]
+        out.append(sc)
+    return out
+
+
+def bigindex_sessions(rnd, n):
+    """Element indices and instance ids that need 16 / 32-bit logical segments (255 / 256, 65535 / 65536, 70000), and explicit
+    {n} on multi-dimensional arrays."""
+    out = []
+    for i in range(n):
+        big = [{"name": "BIGX", "code": 0xC2, "dims": [70010]}, {"name": "GRID", "code": 0xC4, "dims": [2, 3]}, {"name": "CUBE", "code": 0xC3, "dims": [2, 3, 4]}]
+        sc = logix_rw.session(rnd, 3000 + i, prefix="bigx", n_calls=0, big=big, n_tags=2, caps=False)
+        sc["project"]["symbols"].sort(key=lambda s: s["iid"])
+        idx = [255, 256, 300, 65535, 65536, 70000, rnd.randint(257, 70009)]
+        rd = S.read_call([R([("BIGX", [j])]) for j in idx] + [R([("BIGX", [65530])], count=10), R([("BIGX", [250])], count=12)])
+        wr = S.write_call([R([("BIGX", [300])], value=1), R([("BIGX", [70000])], value=2), R([("BIGX", [65536])], value=-3), R([("BIGX", [255])], count=2, value=[4, 5])])
+        g1 = S.write_call([R([("GRID", [0, 0])], count=6, value=[1, 2, 3, 4, 5, 6])])
+        g2 = S.write_call([R([("CUBE", [0, 1, 0])], count=12, value=list(range(12))), R([("GRID", [1, 0])], count=3, value=[7, 8, 9])])
+        gr = S.read_call([R([("GRID", [0, 0])], count=6), R([("CUBE", [0, 0, 0])], count=24), R([("CUBE", [1, 2, 3])]), R([("GRID", [0, 1])], count=4)])
+        sc["calls"] = [{"api": "open"}, rd, wr, rd, g1, gr, g2, gr, {"api": "close"}]
+        sc["family"] = "logix-bigindex"
+        sc["call_seconds"] = 600
         out.append(sc)
     return out
 
@@ -89,6 +116,8 @@ def families(ctx, rnd, thorough, which):
             sc["calls"] = [{"api": "open"}, rd, wr, rd, {"api": "close"}]
             sc["family"] = "logix-brim"
             scs.append(sc)
+    if "rw" in which or "long" in which:
+        scs += bigindex_sessions(rnd, 4 if thorough else 2)
     if "window" in which:
         scs += window_sessions(rnd, 300 if thorough else 28, thorough)
     if "invalid" in which:
